@@ -251,8 +251,66 @@ fn instructions(ctx: &mut Ctx) {
     }
 }
 
+/// Sizes beyond what f32 resolves exactly (the edge length is estimated in f32): a handful of
+/// totals above 2^24 and just above perfect powers, radius 0 and 1, where the expected
+/// neighbourhood follows directly from the exact integer edge length.
+fn beyond_f32(ctx: &mut Ctx) {
+    if ctx.is_fuzz() || ctx.mode == "miri" {
+        return;
+    }
+    let sizes: [(usize, usize); 8] = [(16_777_217, 1), (16_777_217, 2), (16_777_219, 1), (5_764_802, 8), (6_765_202, 4), (16_777_217, 3), (33_554_433, 1), (16_974_594, 2)];
+    let mut case = 5_000_000u64;
+    for (n, d) in sizes.iter() {
+        for which in 0..4usize {
+            for rad in [0.0f32, 1.0] {
+                case += 1;
+                // release build only: tens of millions of iterations per call
+                if !ctx.mine(case) || ctx.profile != "release" {
+                    continue;
+                }
+                let idx = [0usize, 1, n / 2, n - 1][which];
+                ctx.rec.case_marker(case, &format!("beyond-f32 ntotal={} ndim={} index={} radius={}", n, d, idx, rad));
+                let e = edge_len(*n, *d);
+                let mut want: Vec<i32> = vec![idx as i32];
+                if rad >= 1.0 {
+                    let mut stride = 1usize;
+                    let mut rest = idx;
+                    for _ in 0..*d {
+                        let c = rest % e;
+                        rest /= e;
+                        if c > 0 {
+                            want.push((idx - stride) as i32);
+                        }
+                        if c + 1 < e && idx + stride < *n {
+                            want.push((idx + stride) as i32);
+                        }
+                        stride = stride.saturating_mul(e);
+                    }
+                }
+                want.sort();
+                want.dedup();
+                let got = guarded(|| Topology::find_neighbors(n, d, &idx, &rad));
+                ctx.rec.count("neighbourhoods", 1);
+                ctx.rec.count("beyond_f32_cases", 1);
+                match got {
+                    Err(p) => ctx.rec.violation("C20", &format!("find_neighbors|panic|{}", panic_sig(&p)), &format!("{} ; ntotal={} ndim={} index={} radius={}", p, n, d, idx, rad), ""),
+                    Ok(None) => ctx.rec.violation("C20", "find_neighbors|none-for-valid-arguments", &format!("None for ntotal={} ndim={} index={} radius={}", n, d, idx, rad), ""),
+                    Ok(Some(v)) => {
+                        if v.values != want {
+                            ctx.rec.violation("C20", "find_neighbors|beyond-f32-resolution", &format!("ntotal={} ndim={} (exact edge {}) index={} radius={}: got {:?}, expected {:?}", n, d, e, idx, rad, v.values.iter().take(12).collect::<Vec<_>>(), want), "");
+                        }
+                    }
+                }
+                ctx.rec.cover(&format!("beyond|n{}|d{}|w{}|r{}", n, d, which, rad));
+            }
+        }
+    }
+}
+
 pub fn run(ctx: &mut Ctx) {
     grid(ctx);
+    ctx.rec.checkpoint();
+    beyond_f32(ctx);
     ctx.rec.checkpoint();
     decomposition(ctx);
     ctx.rec.checkpoint();
